@@ -9,7 +9,7 @@ from hypothesis import strategies as st
 
 from ..core import SubCheck, Violation, cut, require
 from ..oracles import atmosphere as oatm
-from ..strategies import CHUNK_SIZES, bfloat, log_uniform, near, rel_near, ulp_step
+from ..strategies import CHUNK_SIZES, bfloat, block_edge_sizes, log_uniform, near, rel_near, ulp_step
 
 PROPERTY_ID = "C19"
 LEVEL = "exploration"
@@ -184,7 +184,7 @@ def body_big_and_aliasing(case):
         bad = np.where(~(np.abs(Z1 - z) <= TOL_Z))[0]
         require(bad.size == 0, f"z(P(z)) != z for {bad.size} of {n} elements of one array call (first at index {int(bad[0]) if bad.size else -1}: {z[bad[:1]].tolist()} -> {Z1[bad[:1]].tolist()})")
         # aliasing
-        for mod in (m1, m2):
+        for mod in (m1, m2) if n <= 2**20 + 4097 else ():
             for fn, x in ((fwd, z), (inv, P1)):
                 f = getattr(mod, fn)
                 a = np.asarray(f(x.copy()))
@@ -197,6 +197,44 @@ def body_big_and_aliasing(case):
                 c = np.asarray(f(xin))
                 require(not np.shares_memory(c, xin), f"{fn}: the result shares memory with the input array")
     labels.add("aliasing_probed")
+    # (c) memory representations of the same values: N-D arrays whose axes are permuted in memory, non-native byte
+    # order, read-only arrays and broadcast views give the values of the plain array, element by element
+    if n >= 6:
+        q = min(n // 2, 1500)
+        zz = z[: 2 * q].reshape(2, q)
+        forms = {
+            "fortran2d": np.asfortranarray(zz),
+            "transposed2d": np.ascontiguousarray(zz.T).T,
+            "bigendian": zz.astype(">f8"),
+            "readonly": zz.copy(),
+            "broadcast_view": np.broadcast_to(z[:q], (2, q)),
+            "3d_swapped": np.swapaxes(np.ascontiguousarray(z[: 2 * (q // 2) * 2].reshape(2, q // 2, 2)), 0, 2),
+        }
+        forms["readonly"].flags.writeable = False
+        for mod in (m1, m2):
+            for fname, x in forms.items():
+                xs = np.array(x, dtype=np.float64)  # plain C-ordered native copy of the same values
+                with cut(f"pressure_from_altitude({fname} array {x.shape})"):
+                    got = np.asarray(mod.us_std_atm_pressure_from_altitude(x))
+                    want = np.asarray(mod.us_std_atm_pressure_from_altitude(xs.copy()))
+                require(got.shape == want.shape and np.ascontiguousarray(got).tobytes() == want.tobytes(), f"pressure_from_altitude of a {fname} array {x.shape} differs from the plain array of the same values (e.g. cell {tuple(int(i) for i in np.argwhere(np.asarray(got) != want)[0]) if got.shape == want.shape and np.any(got != want) else '?'})")
+                with cut(f"altitude_from_pressure({fname} array {x.shape})"):
+                    if fname == "bigendian":
+                        pin = want.astype(">f8")
+                    elif fname == "fortran2d":
+                        pin = np.asfortranarray(want)
+                    elif fname == "transposed2d":
+                        pin = np.ascontiguousarray(want.T).T
+                    elif fname == "3d_swapped":
+                        pin = np.swapaxes(np.ascontiguousarray(np.swapaxes(want, 0, 2)), 0, 2)
+                    else:
+                        pin = want.copy()
+                    if fname in ("readonly", "broadcast_view"):
+                        pin.flags.writeable = False
+                    zb = np.asarray(mod.us_std_atm_altitude_from_pressure(pin))
+                    zw = np.asarray(mod.us_std_atm_altitude_from_pressure(want.copy()))
+                require(zb.shape == zw.shape and np.ascontiguousarray(zb).tobytes() == zw.tobytes(), f"altitude_from_pressure of a {fname} array {x.shape} differs from the plain array of the same values")
+        labels.add("memory_layouts")
     return labels
 
 
@@ -205,8 +243,11 @@ def _big_cases(tier):
 
     seed = int(os.environ.get("VERIF_SEED", "1") or "1")
     rng = np.random.default_rng(seed)  # enumeration parameters only (sizes are fixed); part of the deterministic case list
-    for rep in range(1 if tier == "quick" else 6):
-        for n in [3, 1000] + CHUNK_SIZES:
+    plan = [(0, n) for n in [3, 1000] + block_edge_sizes("quick")]
+    if tier != "quick":
+        plan += [(rep, n) for rep in range(1, 6) for n in [3, 1000] + CHUNK_SIZES] + [(6, n) for n in block_edge_sizes(tier, cap=2**23 + 4097)]
+    for rep, n in plan:
+        if True:
             yield {
                 "n": int(n),
                 "z0": float(rng.uniform(0.0, 10.0)),
